@@ -135,6 +135,22 @@ var c06Sites = []site{
 				dlnproof.UnmarshalDLNProof(append(append([][]byte{}, out...), v[0].Bytes()))
 				dlnproof.UnmarshalDLNProof(out[:1])
 				dlnproof.UnmarshalDLNProof(nil)
+				// the same 256 values re-partitioned: both length prefixes changed consistently (k and 256-k), so
+				// that the list still has exactly 258 non-empty fields
+				vals := append(append([][]byte{}, out[1:129]...), out[130:258]...)
+				for _, k := range []int{0, 1, 127, 129, 255, 256} {
+					pre := func(n int) []byte {
+						if n == 0 {
+							return []byte{0}
+						}
+						return big.NewInt(int64(n)).Bytes()
+					}
+					re := append([][]byte{pre(k)}, vals[:k]...)
+					re = append(append(re, pre(256-k)), vals[k:]...)
+					if p, err := dlnproof.UnmarshalDLNProof(re); err == nil {
+						p.Verify(pp.H1i, pp.H2i, pp.NTildei)
+					}
+				}
 			}}
 		})
 	}},
